@@ -434,6 +434,10 @@ pub fn contexts(feats: u32) -> Vec<&'static str> {
         v.push("(?<=H)b");
         v.push("(?<!H).");
         v.push("(?=(H))\\1");
+        v.push("(?=(H)(?=))\\1c");
+        v.push("(?=(H)\\b)\\1");
+        v.push("(?<=(H)(?=))c\\1");
+        v.push("(?=(?>)(H)|(b))\\1");
     }
     if feats & F_COND != 0 {
         v.push("(H)?(?(1)a|b)");
@@ -459,7 +463,13 @@ pub fn fill(ctx: &str, filler: &str, filler_is_alt: bool) -> String {
 // ---------------------------------------------------------------------------
 // fixed witnesses (known findings and regression shapes), always run
 
-pub const WITNESSES: [&str; 24] = [
+pub const WITNESSES: [&str; 30] = [
+    "(?=(a|ab)(?=))\\1c",
+    "(?=(a|ab))\\1c",
+    "(?=(?>)(a|ab))\\1c",
+    "(?=(a*)\\b)\\1b",
+    "(?<=(a)|(.a))\\b\\2?c",
+    "(?=(a+?)(?=))\\1b",
     "(a|ab)(c|bcd)\\1",
     "(a*)+?b(?!c)\\1",
     "(?:(?=(\\1?a))aaa)+",
